@@ -52,11 +52,13 @@ func repoRoot() string {
 	return "/repo"
 }
 
+// gitStatus: tracked/untracked changes under tools/httpserver only (other agents or the maintainer may
+// legitimately change other parts of the tree while this check runs).
 func gitStatus(repo string) (string, bool) {
 	if _, err := os.Stat(filepath.Join(repo, ".git")); err != nil {
 		return "", false
 	}
-	out, err := exec.Command("git", "--no-optional-locks", "-C", repo, "status", "--short").Output()
+	out, err := exec.Command("git", "--no-optional-locks", "-C", repo, "status", "--short", "--", "tools/httpserver").Output()
 	if err != nil {
 		return "", false
 	}
